@@ -18,6 +18,7 @@ type FaultLog struct {
 	Failures int   // calls answered with an error
 	Errors   int   // individual errors injected (an error list counts each entry)
 	Shapes   int   // calls answered with a malformed / null payload and no error
+	AtJoin   int   // calls answered with null at a join position and an error saying why
 	InFlight int64 // service calls currently executing
 	MaxInFlight int64
 }
@@ -123,6 +124,25 @@ func InstallFaults(f *Fed, faults []FaultSpec, barrier int) *FaultLog {
 							return nil, graphql.ErrorList{&graphql.Error{Message: "injected-with-null"}}, true
 						}
 						return map[string]interface{}{"node": nil}, graphql.ErrorList{&graphql.Error{Message: "injected-with-null", Path: []interface{}{"node"}}}, true
+					case "join-null+error":
+						// the usual way a server reports a field it could not resolve: null where the field belongs — here
+						// exactly where a dependent step joins — and an error saying why
+						doc, errs := gqlparser.LoadQuery(s.Schema, in.Query)
+						if errs != nil {
+							return nil, nil, false
+						}
+						data, _ := Exec(s.Schema, s.Store, doc, in.OperationName, in.Variables)
+						if malformAt(data, fs.Path, fs.Kind, !isRootCall(in)) {
+							fl.Failures++
+							fl.Errors++
+							fl.AtJoin++
+							path := []interface{}{}
+							for _, p := range fs.Path {
+								path = append(path, p)
+							}
+							return data, graphql.ErrorList{&graphql.Error{Message: "injected-at-join: the field could not be resolved", Path: path}}, true
+						}
+						return nil, nil, false
 					case "join-drop-id", "join-retype", "join-scalar":
 						// the real answer, malformed exactly where a dependent step joins
 						doc, errs := gqlparser.LoadQuery(s.Schema, in.Query)
@@ -200,6 +220,13 @@ func malformAt(data map[string]interface{}, path []string, kind string, underNod
 		if i < len(path)-1 {
 			cur = obj[key]
 			continue
+		}
+		if kind == "join-null+error" {
+			if obj[key] == nil {
+				return false
+			}
+			obj[key] = nil
+			return true
 		}
 		switch t := obj[key].(type) {
 		case map[string]interface{}:
